@@ -115,9 +115,26 @@ class MQTTFactory(ReconnectingClientFactory):
 
     def makeId(self):
         '''Produce ids for Protocol packets, outliving their sessions'''
-        self.id = (self.id + 1) % 65536
-        self.id = self.id or 1   # avoid id 0
+        for _ in range(0, 65535):
+            self.id = (self.id + 1) % 65536
+            self.id = self.id or 1   # avoid id 0
+            if not self._isBusyId(self.id):
+                break
         return self.id
+
+
+    def _isBusyId(self, msgId):
+        '''Tells if an id is still in use by a request not yet finished'''
+        for windows in (self.windowPublish, self.windowPubRelease, 
+                        self.windowSubscribe, self.windowUnsubscribe):
+            for window in windows.values():
+                if msgId in window:
+                    return True
+        for queue in self.queuePublishTx.values():
+            for request in queue:
+                if request.msgId == msgId:
+                    return True
+        return False
 
 
 __all__ = [MQTTFactory]
